@@ -180,8 +180,10 @@ theorem sumInc_traces (line metric : String) (keys : List TKey) :
   | cons k ks ih => simp [sumInc, ih]
 
 /-- **exact counts**: after the collecting session `dump()["Compute"]` shows exactly the payload
-    operators the kernel executed — `payload_mul` the `*`, `payload_update` the `+=`, `payload_add`
-    the `+=` on an accumulator that already held a non-zero value — and no other line or metric. -/
+    operators the kernel executed, however its innermost statement is spelled (`z += a*b`,
+    `z <<= z + a*b`, `t *= b; z += t`): `payload_mul` the `*` and `*=`, `payload_update` the `+=`,
+    `<<=` and `*=`, `payload_add` the `+` and the `+=` on an accumulator that already held a non-zero
+    value. -/
 theorem kernel_counts_exact (k : Kernel) (z : ATree) (ops : List Operand) (p : String) (keys : List TKey)
     (s₀ s' : MState) (out : ATree) (h : kernelSession k z ops p keys s₀ = some (out, s')) :
     count s' "Compute" "payload_mul" = nMul (kernelEvents k z ops) ∧
@@ -336,6 +338,10 @@ example : (show List (Int × Int) from castT 1 (runPlain kCol ⟨1, []⟩ [aCol]
 example : (kernelSession kCol ⟨1, []⟩ [aCol] "p" [("K", "iter"), ("M", "iter")] dirty).map
     (fun x => (count x.2 "Compute" "payload_update", count x.2 "Compute" "payload_add",
       numIters (fileOf x.2 "p" "K" "iter"), numIters (fileOf x.2 "p" "M" "iter"))) = some (4, 1, 4, 2) := by decide
+-- the same kernel spelled `z <<= z + a` / `t = a; z += t`: other operators, other counts, same theorem
+example : (kernelSession { kCol with body := .addAssign } ⟨1, []⟩ [aCol] "p" [] dirty).map
+    (fun x => (count x.2 "Compute" "payload_update", count x.2 "Compute" "payload_add", count x.2 "Compute" "payload_mul")) = some (4, 4, 0) ∧
+    nAdd (kernelEvents { kCol with body := .addAssign } ⟨1, []⟩ [aCol]) = 4 := by decide
 example : (∀ o ∈ [aCol], o.uShape = none) ∧ registers "K" (callsOf (kernelEvents kCol ⟨1, []⟩ [aCol])) = true := by decide
 
 /-- matrix multiply `Z_mn = Σ_k A_mk B_kn` in the order M, K, N (intersections are well-founded
